@@ -1,6 +1,6 @@
 #!/bin/sh
 # dev-only: like harmless.sh, for a chosen list of checks.   usage: dev/harmless2.sh <patch dir> <first> <last> <ids...>
-PD=$1; A=$2; B=$3; shift 3
+PD=$(cd "$1" && pwd); A=$2; B=$3; shift 3
 for i in $(seq -w $A $B); do
   P=$PD/h$i.diff
   [ -f $P ] || continue
